@@ -156,7 +156,7 @@ func c05Build(p *chk.Prog, r *chk.Report) {
 		}
 		if !g.EdgeImpliesAny(g.GPat(true, "len(A.Peers) > 0", chk.H("A", adc))) {
 			// unconditional copy is fine too
-			w := g.MustPass(chk.Site{G: g, B: bodyStart(g, adLoop).B, I: 0}, func(n ast.Node) bool { return n == st.Top }, false, func(n ast.Node) bool { return n == peers[0].Top })
+			w := g.MustPass(chk.Site{G: g, B: bodyStart(g, adLoop).B, I: -1}, func(n ast.Node) bool { return n == st.Top }, false, func(n ast.Node) bool { return n == peers[0].Top })
 			isVariadicCopy = !w.Found
 		}
 	}
@@ -186,7 +186,7 @@ func c05Build(p *chk.Prog, r *chk.Report) {
 		okSort = idx && len(ss) == 1
 		if okSort {
 			// from the last community append (loop) to the store, the sort is passed
-			w := g.MustPass(chk.Site{G: g, B: bodyStart(g, adLoop).B, I: 0}, func(n ast.Node) bool { return n == st.Top }, false, func(n ast.Node) bool { return n == ss[0].Top })
+			w := g.MustPass(chk.Site{G: g, B: bodyStart(g, adLoop).B, I: -1}, func(n ast.Node) bool { return n == st.Top }, false, func(n ast.Node) bool { return n == ss[0].Top })
 			okSort = !w.Found
 			// and the sort comes after the community loop
 			for _, rs := range f.RangeLoops(func(e ast.Expr) bool { return f.MatchWith("A.Communities", e, chk.H("A", adc)) != nil }) {
